@@ -1,6 +1,7 @@
 use super::super::Compiler;
 use aelys_bytecode::OpCode;
 use aelys_common::Result;
+use aelys_common::error::{CompileError, CompileErrorKind};
 use aelys_sema::{InferType, ResolvedType, TypedExpr};
 use aelys_syntax::Span;
 
@@ -54,6 +55,16 @@ impl Compiler {
             return Ok(());
         }
 
+        // the elements are evaluated into consecutive registers and counted in a u8 operand
+        if count > u8::MAX as usize {
+            return Err(CompileError::new(
+                CompileErrorKind::TooManyRegisters,
+                span,
+                self.source.clone(),
+            )
+            .into());
+        }
+
         let start_reg = self.alloc_consecutive_registers_for_call(count as u8, span)?;
 
         for i in 0..count {
@@ -102,6 +113,16 @@ impl Compiler {
             };
             self.emit_a(opcode, dest, 0, 0, span);
             return Ok(());
+        }
+
+        // the elements are evaluated into consecutive registers and counted in a u8 operand
+        if count > u8::MAX as usize {
+            return Err(CompileError::new(
+                CompileErrorKind::TooManyRegisters,
+                span,
+                self.source.clone(),
+            )
+            .into());
         }
 
         let start_reg = self.alloc_consecutive_registers_for_call(count as u8, span)?;
